@@ -167,5 +167,5 @@ def run(tier="quick"):
     rep.not_decided = ["behaviour of the guard's queue itself (C06/C02)"]
     for m in models:
         rep.configs.append(m.config)
-        rules(rep, m)
+        common.run_rules(rep, m, rules)
     return rep.finish()
